@@ -8,17 +8,23 @@ def configs(tier, seed):
     if tier == "quick":
         # the last one has two non-prototype training samples and two validation samples: two swaps in one iteration
         L = [(3, 2, [0, 1, 0], [0, 1], 2), (3, 2, [0, 1, 1], [1, 0], 2), (3, 1, [0, 1, 0], [1], 2), (2, 2, [0, 1], [1, 0], 2),
-             (4, 2, [0, 0, 1, 1], [1, 0], 1)]
+             (4, 2, [0, 0, 1, 1], [1, 0], 1, [0, 1, 5, 7])]
         R = [(3, 1, [0, 1, 0], [0]), (3, 2, [0, 1, 0], [0, 1]), (4, 1, [0, 1, 0, 1], [0]), (3, 1, [0, 0, 1], [1])]
         P = [(3, 1, [0, 1, 0], [0], 1), (4, 2, [0, 1, 0, 1], [0, 1], 1), (4, 1, [0, 1, 1, 0], [1], 2)]
     else:
         L = [(3, 2, [0, 1, 0], [0, 1], 3), (3, 2, [0, 1, 1], [1, 0], 3), (4, 2, [0, 1, 0, 1], [0, 1], 2),
-             (4, 2, [0, 0, 1, 1], [1, 0], 3), (3, 1, [0, 1, 0], [1], 3), (2, 2, [0, 1], [1, 0], 3)]
+             (4, 2, [0, 0, 1, 1], [1, 0], 3), (3, 1, [0, 1, 0], [1], 3), (2, 2, [0, 1], [1, 0], 3),
+             (4, 2, [0, 0, 1, 1], [1, 0], 2, [0, 1, 5, 7]), (5, 2, [0, 0, 0, 1, 1], [1, 0], 1, [0, 1, 2, 6, 8])]
         R = [(3, 1, [0, 1, 0], [0]), (3, 2, [0, 1, 0], [0, 1]), (4, 1, [0, 1, 0, 1], [0]), (4, 2, [0, 1, 0, 1], [1, 0]),
              (5, 1, [0, 1, 0, 1, 0], [0]), (3, 1, [0, 0, 1], [1])]
         P = [(3, 1, [0, 1, 0], [0], 1), (4, 2, [0, 1, 0, 1], [0, 1], 1), (4, 1, [0, 1, 1, 0], [1], 2), (5, 2, [0, 1, 0, 1, 0], [0, 1], 2)]
-    for ntr, nv, ltr, lv, it in L:
-        cfgs.append(dict(kind="learn", ntr=ntr, nv=nv, ltr=ltr, lv=lv, iters=it, weight=(ntr + nv) ** (ntr + nv) * it))
+    for item in L:
+        ntr, nv, ltr, lv, it = item[:5]
+        c = dict(kind="learn", ntr=ntr, nv=nv, ltr=ltr, lv=lv, iters=it, weight=(ntr + nv) ** (ntr + nv) * it, deadline_s=1500)
+        if len(item) > 5:
+            c["fixed_train"] = item[5]
+            c["weight"] = 2000
+        cfgs.append(c)
     for ntr, nv, ltr, lv in R:
         cfgs.append(dict(kind="relevance", ntr=ntr, nv=nv, ltr=ltr, lv=lv, weight=(ntr + nv) ** (ntr + nv)))
     for ntr, nv, ltr, lv, it in P:
